@@ -85,6 +85,7 @@ type candidate struct {
 	e     Expr
 	frame string // non-empty: automatic frame candidate for this heap (pre-existing objects unchanged)
 	iterVar, iterName string // candidate "named int variable == hidden iterator count"
+	except []string // frame candidates: parameter names whose objects are exempt
 	alive bool
 }
 
@@ -151,6 +152,10 @@ type FnCtx struct {
 	houdiniObs    []*houdiniOb
 	pendingHavoc  []string
 	finalized     bool
+	curBindings   []ssa.Value
+	curCallee     *ssa.Function
+	strConsts     map[string]bool
+	usedLemmas    []string
 	ctxBlock      []int
 	ancCache      map[int]map[int]bool
 	ancMu         sync.Mutex
@@ -176,6 +181,12 @@ func (c *FnCtx) fresh(prefix string) string {
 func (c *FnCtx) declare(name, srt string) string {
 	if !c.declSet[name] {
 		c.declSet[name] = true
+		if srt == "Str" {
+			if c.strConsts == nil {
+				c.strConsts = map[string]bool{}
+			}
+			c.strConsts[name] = true
+		}
 		c.decls = append(c.decls, fmt.Sprintf("(declare-const %s %s)", name, srt))
 	}
 	return name
@@ -283,6 +294,19 @@ func (c *FnCtx) oblige(kind string, props []string, guard, goal string, pos toke
 		}
 		break
 	}
+	// a string equality in goal position is proved extensionally (Str is identified by content)
+	if h, args, ok := splitTop(body); ok && h == "=" && len(args) == 2 && (c.isStrTerm(args[0]) || c.isStrTerm(args[1])) {
+		k := c.fresh("sk_ext")
+		c.declare(k, "Int")
+		lenEq := eq(app("slen", args[0]), app("slen", args[1]))
+		chEq := implies(and(le("0", k), lt(k, app("slen", args[0]))), eq(app("sat", args[0], k), app("sat", args[1], k)))
+		o1 := c.obligeRaw(kind, props, implies(g, lenEq), pos, cl, detail)
+		_ = o1
+		c.assume(implies(g, lenEq))
+		o2 := c.obligeRaw(kind, props, implies(and(g, lenEq), chEq), pos, cl, detail)
+		c.assume(implies(guard, goal))
+		return o2
+	}
 	o := &Oblig{Block: c.curBlock, Kind: kind, Props: props, Goal: implies(g, body), Prefix: len(c.ctx), NDecl: -1, Pos: pos, PosStr: c.posStr(pos), Fn: c.key, Clause: cl, Detail: detail, ctx: c}
 	base := fmt.Sprintf("%s/%s", c.key, kind)
 	if cl != nil {
@@ -292,6 +316,31 @@ func (c *FnCtx) oblige(kind string, props []string, guard, goal string, pos toke
 	o.Name = fmt.Sprintf("%s#%d", base, c.nameCount[base])
 	c.obligs = append(c.obligs, o)
 	c.assume(implies(guard, goal))
+	return o
+}
+
+func (c *FnCtx) isStrTerm(t string) bool {
+	if c.strConsts[t] || t == "str_empty" {
+		return true
+	}
+	for _, p := range []string{"(ssub ", "(scat ", "(vstr ", "(vnum ", "(str_of_"} {
+		if len(t) > len(p) && t[:len(p)] == p {
+			return true
+		}
+	}
+	return false
+}
+
+// obligeRaw records one obligation without splitting or assuming it.
+func (c *FnCtx) obligeRaw(kind string, props []string, goal string, pos token.Pos, cl *Clause, detail string) *Oblig {
+	o := &Oblig{Block: c.curBlock, Kind: kind, Props: props, Goal: goal, Prefix: len(c.ctx), NDecl: -1, Pos: pos, PosStr: c.posStr(pos), Fn: c.key, Clause: cl, Detail: detail, ctx: c}
+	base := fmt.Sprintf("%s/%s", c.key, kind)
+	if cl != nil {
+		base = fmt.Sprintf("%s/%s@L%d", c.key, kind, cl.Line)
+	}
+	c.nameCount[base]++
+	o.Name = fmt.Sprintf("%s#%d", base, c.nameCount[base])
+	c.obligs = append(c.obligs, o)
 	return o
 }
 
